@@ -34,7 +34,7 @@ LEVEL_TEXT = (
 LEVEL_NOTE = "Trusted: Python float modulo (exact on the lattice), fractions for the width/representability decision off-lattice."
 TECHNIQUE = "runtime postcondition monitor with an exact modular-arithmetic oracle plus verde.inside applied to the returned values; exhaustive 5-degree lattice + seeded off-lattice and rejection workload"
 FLOORS = {
-    "quick": {"eval:region": 12000, "eval:longitudes": 12000, "eval:inside": 12000, "eval:rejection": 300, "distinct_nontrivial": 2500, "eval:forms": 40, "class:longitude_subset_calls": 8000, "class:mixed_dtype_coordinates": 40},
+    "quick": {"eval:region": 12000, "eval:longitudes": 12000, "eval:inside": 12000, "eval:rejection": 300, "distinct_nontrivial": 2500, "eval:forms": 40, "class:longitude_subset_calls": 8000, "class:mixed_dtype_coordinates": 40, "class:point_spelling_python": 150, "class:point_spelling_zero_d": 150},
     "thorough": {"eval:region": 40000, "eval:longitudes": 40000, "eval:inside": 40000, "eval:rejection": 3000, "distinct_nontrivial": 20000},
 }
 JOBS = {"quick": 1, "thorough": 16}
@@ -340,6 +340,14 @@ def run_case(run, tap, stream, index, rng):
             cm, rm = vd.longitude_continuity([lon2d.astype("int64"), frac_lat, height + 0.5], region)  # integer longitudes, fractional others
             c32, r32 = vd.longitude_continuity([lon2d.astype("float32"), frac_lat * (1 + 1e-9)], region)
             run.count("class:mixed_dtype_coordinates", 2)
+            # one point in every spelling: Python floats, numpy scalars, 0-d arrays, 1-element arrays and lists
+            for lon_value in (350.0, -65.0, 185.0, 0.0, 360.0, -180.0, 180.0, 10.0):
+                lat_value = 5.0
+                for spell, pt in (("python", (lon_value, lat_value)), ("numpy_scalar", (np.float64(lon_value), np.float64(lat_value))),
+                                  ("zero_d", (np.array(lon_value), np.array(lat_value))), ("one_element", (np.array([lon_value]), np.array([lat_value]))),
+                                  ("int", (int(lon_value), int(lat_value)))):
+                    vd.longitude_continuity(list(pt), region)
+                    run.count("class:point_spelling_" + spell)
             cf, rf = vd.longitude_continuity((np.asfortranarray(lon2d), np.ascontiguousarray(lat2d.T).T), tuple(region))
             if not (np.array_equal(cf[0], c2d[0]) and np.array_equal(np.asarray(rf, dtype=float), np.asarray(r2d, dtype=float))):
                 run.violation("forms", "the result depends on the memory layout of the coordinate arrays", {"region": region}, key="forms-layout")
